@@ -13,8 +13,13 @@ def write(name, header, seq, seed, family, steps):
     with open(os.path.join(ROOT, "corpus", name), "w") as f:
         f.write("# " + header + "\n")
         f.write(f"begin seq={seq} seed={seed} family={family}\n")
-        for i, s in enumerate(steps, 1):
-            f.write(f"step seq={seq} i={i} {s} => ?\n")
+        i = 0
+        for s in steps:
+            if s.startswith("QUERY "):
+                f.write(f"query seq={seq} {s[6:]} => ?\n")
+            else:
+                i += 1
+                f.write(f"step seq={seq} i={i} {s} => ?\n")
         f.write(f"end seq={seq}\n")
 
 fund_factory = "bank_send 0 6 " + ",".join(f"{d}:1" for d in range(ND))
@@ -48,4 +53,21 @@ d1 = [ "bank_send 0 6 0:1,1:1", "f_add 0 - 0 6", "f_add 0 - 1 6",
        f"pair_swap 3 {P0} 0:1 n0 1 - - -" ]
 for n in ("C01.txt", "C03.txt"):
     write(n, "known finding KF-SWAP-WINDOW at system level: (X, X, 1), the input a repository test pins, through a real pair", 2, 1, "swap", d1)
+# legal-but-unusual histories on which an oracle once raised a false alarm (found by an independent review of the oracles):
+# they must stay silent on the unchanged tree
+mk = ["f_create 0 - t8 t9 1,2 0 0 3000000000000000", f"tok_inc 8 1 {P0} {BIG}", f"tok_inc 9 1 {P0} {BIG}"]
+write("C12.txt", "false-alarm regression: a quote followed by two identical swaps — only the first is compared with it", 1, 1, "swap",
+      mk + [f"pair_provide 1 {P0} - t8 1000000 t9 2000000 - -", "QUERY sim %d t8 1000" % P0,
+            f"tok_send 8 2 {P0} 1000 swap:t8:1000:-:-:-", f"tok_send 8 3 {P0} 1000 swap:t8:1000:-:-:-"])
+write("C05.txt", "false-alarm regression: first provision whose receiver is the LP token's own address; a holder burning base tokens", 1, 1, "liquidity",
+      mk + [f"pair_provide 1 {P0} - t8 1000000 t9 2000000 - {P0 + 1}", "tok_burn 8 2 1000"])
+write("C07.txt", "false-alarm regression: receivers that are contracts (pair, LP token, token, factory, router), extra coins, raw router Receive", 1, 1, "swap",
+      ["bank_send 0 6 0:1,1:1", "f_add 0 - 0 6", "f_add 0 - 1 6", "f_create 0 - n0 t9 1,2 0 0 3000000000000000", "f_create 0 - n0 n1 1,2 0 0 0",
+       f"tok_inc 9 1 {P0} {BIG}", f"pair_provide 1 {P0} 0:1000000 n0 1000000 t9 2000000 - {P0}",
+       f"pair_provide 1 {P0 + 2} 0:1000000,1:3000000 n1 3000000 n0 1000000 500000000000000000 -",
+       f"pair_swap 2 {P0} 0:1000 n0 1000 - - {P0 + 1}", f"pair_swap 2 {P0} 0:1000 n0 1000 - - 9", f"pair_swap 2 {P0} 0:1000 n0 1000 - - {P0}",
+       f"pair_swap 2 {P0} 0:1000 n0 1000 - - 6", f"pair_swap 2 {P0 + 2} 0:1000,1:777 n0 1000 - - -", f"pair_swap 2 {P0 + 2} 0:1000,1:777 n0 1000 - - 3",
+       f"tok_send 9 2 {P0} 5000 swap:t9:5000:-:-:9", f"tok_send 9 2 {P0} 5000 swap:t9:5000:-:-:7", f"tok_transfer {P0 + 1} 1 {P0} 1000",
+       f"tok_send {P0 + 1} 1 {P0} 5000 withdraw", "bank_send 3 7 0:5000", "r_receive 4 - 2 0 rops:n0>t9:-:-", "r_ops 2 0:3000 n0>t9;t9>n0 0 7",
+       f"r_ops 2 0:3000 n0>t9 1 {P0 + 1}", f"pair_provide 2 {P0 + 2} 0:1000,1:3000 n0 1000 n1 3000 - {P0 + 3}", f"tok_send {P0 + 3} 1 {P0 + 2} 100 withdraw"])
 print("corpus regenerated")
